@@ -1,5 +1,5 @@
 SPECIFICATION TSpec
-CONSTANTS Names = {"a", "b", "c"} MaxWrites = 1000 MaxCrashes = 1000 MaxFaults = 1000 StaleFix = TRUE
+CONSTANTS Names = {"a", "b", "c", "n0"} MaxWrites = 1000 MaxCrashes = 1000 MaxFaults = 1000 StaleFix = TRUE
 CONSTRAINT Done
 INVARIANTS TargetComplete
 CHECK_DEADLOCK FALSE
